@@ -15,7 +15,7 @@ from common import *
 
 
 def lines_of(cmd, env=None):
-    p = subprocess.run(cmd, stdout=subprocess.PIPE, stderr=subprocess.DEVNULL, text=True, env=env)
+    p = subprocess.run(cmd, stdout=subprocess.PIPE, stderr=subprocess.DEVNULL, text=True, errors="replace", env=env)
     out = {}
     for l in p.stdout.splitlines():
         if l.startswith("{"):
@@ -76,7 +76,7 @@ def determinism(n):
     outs = []
     for hs in ("0", "98765"):
         env = dict(os.environ, PYTHONHASHSEED=hs)
-        p = subprocess.run([sys.executable, me, "--worker", drv, "0", "7000000", "150", "1"], stdout=subprocess.PIPE, stderr=subprocess.PIPE, text=True, env=env)
+        p = subprocess.run([sys.executable, me, "--worker", drv, "0", "7000000", "150", "1"], stdout=subprocess.PIPE, stderr=subprocess.PIPE, text=True, errors="replace", env=env)
         outs.append([json.dumps({k: v for k, v in json.loads(l).items() if k in ("seed", "cls", "hash", "shash", "steps", "decisions")}, sort_keys=True) for l in p.stdout.splitlines() if l.startswith("{")])
     d46 = sum(1 for x, y in zip(outs[0], outs[1]) if x != y) + abs(len(outs[0]) - len(outs[1]))
     log("determinism %-20s %5d histories under PYTHONHASHSEED 0 and 98765: %d differing" % ("C46", len(outs[0]), d46))
@@ -94,7 +94,7 @@ def seeded():
         m = json.load(open(meta))
         pid = m["property"]
         t0 = time.time()
-        p = subprocess.run([os.path.join(VERIF, "bin", "try-seeded"), os.path.join(root, d), pid] + m.get("check_args", []), stdout=subprocess.PIPE, stderr=subprocess.STDOUT, text=True)
+        p = subprocess.run([os.path.join(VERIF, "bin", "try-seeded"), os.path.join(root, d), pid] + m.get("check_args", []), stdout=subprocess.PIPE, stderr=subprocess.STDOUT, text=True, errors="replace")
         viol = [l for l in p.stdout.splitlines() if l.startswith("VIOLATION")]
         cls = sorted({l.split("class=")[1].split()[0] for l in p.stdout.splitlines() if "class=" in l})
         ok = p.returncode == 1 and bool(viol)
